@@ -297,14 +297,19 @@ def vfsWriteData (name : String) (data : List UInt8) (off : Nat) : DM (Option Fs
       modify fun s => { s with fs := fs' }
       pure none
 
-/-- `_handle_fd_pdu` (dest.py:816-855) -/
-def handleFdPdu (env : Env) (off : Nat) (data : List UInt8) : DM Unit := do
+/-- `_handle_fd_pdu`, part 1: the File-Segment-Recv indication -/
+def fdIndication (env : Env) (off len : Nat) : DM Unit := do
   if env.cfg.indSegRecv then
-    emitInd (.segRecv (← getP).tid off data.length)
-  let next := off + data.length
+    emitInd (.segRecv (← getP).tid off len)
+
+/-- `_handle_fd_pdu`, part 2: lost segment detection (acknowledged mode) -/
+def fdLostSegments (off len : Nat) : DM Unit := do
   if (← transmissionMode) = some .ack then
-    lostSegmentHandling off data.length
-  match ← vfsWriteData (← getP).fileName data off with
+    lostSegmentHandling off len
+
+/-- `_handle_fd_pdu`, part 4: everything after the `write_data` call (`r` = the exception it raised) -/
+def fdAfterWrite (off : Nat) (data : List UInt8) (r : Option FsErr) : DM Unit := do
+  match r with
   | some e =>
     if e = .fileNotFound || e = .permission then
       if (← getP).fin.fstat ≠ fsRetained then
@@ -320,8 +325,20 @@ def handleFdPdu (env : Env) (off : Nat) (data : List UInt8) : DM Unit := do
     if sizeErr then
       let fh ← declareFault ccFileSizeError
       if fh ≠ fhIgnore then pure ()
-      else modP fun p => { p with progress := max next p.progress }
-    else modP fun p => { p with progress := max next p.progress }
+      else modP fun p => { p with progress := max (off + data.length) p.progress }
+    else modP fun p => { p with progress := max (off + data.length) p.progress }
+
+/-- `_handle_fd_pdu`, part 3: `self.user.vfs.write_data(self._params.fp.file_name, data, offset)` -/
+def fdWrite (off : Nat) (data : List UInt8) : DM (Option FsErr) := do
+  let p ← getP
+  vfsWriteData p.fileName data off
+
+/-- `_handle_fd_pdu` (dest.py:816-855) -/
+def handleFdPdu (env : Env) (off : Nat) (data : List UInt8) : DM Unit := do
+  fdIndication env off data.length
+  fdLostSegments off data.length
+  let r ← fdWrite off data
+  fdAfterWrite off data r
 
 /-- second half of `_handle_no_error_eof`: the checksum verification of unacknowledged mode -/
 def noErrorEofVerify (env : Env) : DM Bool := do
